@@ -210,7 +210,12 @@ func (s *Session) callOpts(r *rpcState, opts []string) []grpc.CallOption {
 		case "peer":
 			out = append(out, grpc.Peer(&peer.Peer{}))
 		case "creds":
-			out = append(out, grpc.PerRPCCredentials(perRPCCreds{md: map[string]string{"x-cred": "c1"}}))
+			cm := map[string]string{"x-cred": "c1"}
+			if has(opts, "nomd") {
+				// no outgoing metadata at all: the RPC tag travels in the credentials
+				cm["x-rpc"] = fmt.Sprint(r.n)
+			}
+			out = append(out, grpc.PerRPCCredentials(perRPCCreds{md: cm}))
 		case "chan":
 			out = append(out, grpctunnel.WithTunnelChannel(&r.chT))
 		}
@@ -244,7 +249,7 @@ func has(l []string, x string) bool {
 	return false
 }
 
-func sentMD(ctx context.Context, opts []string) map[string][]string {
+func sentMD(ctx context.Context, opts []string, rpc int) map[string][]string {
 	md, _ := metadata.FromOutgoingContext(ctx)
 	md = md.Copy()
 	if has(opts, "creds") {
@@ -252,6 +257,9 @@ func sentMD(ctx context.Context, opts []string) map[string][]string {
 			md = metadata.MD{}
 		}
 		md.Append("x-cred", "c1")
+		if has(opts, "nomd") {
+			md.Append("x-rpc", fmt.Sprint(rpc))
+		}
 	}
 	return wire.MD(md)
 }
@@ -279,7 +287,7 @@ func (s *Session) clientOp(r *rpcState, a *actor, st Step) {
 			s.opRet(a, st, errFields(tr.E{}, errors.New("no channel")))
 			return
 		}
-		start := tr.E{"shape": st.Shape, "method": wire.Val(method), "md": sentMD(r.ctx, st.Opts), "timeout": st.Timeout, "opts": append([]string{}, st.Opts...)}
+		start := tr.E{"shape": st.Shape, "method": wire.Val(method), "md": sentMD(r.ctx, st.Opts, r.n), "timeout": st.Timeout, "opts": append([]string{}, st.Opts...)}
 		if st.Op == "new" {
 			s.opStart(a, st, start)
 			cs, err := ch.NewStream(r.ctx, &grpc.StreamDesc{StreamName: st.Shape, ClientStreams: sh.cstr, ServerStreams: sh.sstr}, method, opts...)
